@@ -222,7 +222,10 @@ class WebSocketApp:
             return
         while not self.stop_ping.wait(self.ping_interval) and self.keep_running is True:
             if self.sock:
-                self.last_ping_tm = time.time()
+                # Keep the time of the oldest ping that is still unanswered:
+                # a newer ping must not postpone the ping/pong timeout.
+                if not self.last_ping_tm or self.last_pong_tm >= self.last_ping_tm:
+                    self.last_ping_tm = time.time()
                 try:
                     _logging.debug("Sending ping")
                     self.sock.ping(self.ping_payload)
